@@ -52,6 +52,9 @@ def reduceCore (op : RedOp) (x : COO Int) (axes : Option (List Nat)) (keepdims :
   if op.ap x.fill x.fill ≠ x.fill ∧ op.super?.isNone then throw .value
   let nd := x.shape.length
   let axes := match axes with | none => List.range nd | some a => a
+  -- nothing to reduce over and no super ufunc: the ufunc's identity, or ValueError when it has none
+  -- (`maximum` / `minimum`, the idempotent ops driven through the model, have none)
+  if op.super?.isNone ∧ axes.any (fun a => x.shape.getD a 0 == 0) then throw .value
   let kept := (List.range nd).filter fun a => !axes.contains a
   let a := (x.transposeCore (kept ++ axes)).reshapeCore
     [prod (kept.map fun d => x.shape.getD d 0), prod (axes.map fun d => x.shape.getD d 0)]
